@@ -233,6 +233,15 @@ def rule_high_qc(ctx):
         st, txt = folds.max_by_loop(ctx, f, cur_key, new_key)
         from_keys = any(c["q"].endswith(("BTreeMap::keys", "BTreeMap::iter")) for c in ctx.T(f).calls())
         if st == "unknown":
+            # whatever the shape: a maximum by view needs SOME order comparison (or max / max_by*) in the function or its
+            # closures; a selection by position alone (first / last entry of the sorted map, find_map, rev().next()) is not one -
+            # the map is ordered by the whole ReplicaTimeout (view, high_vote, high_qc), not by the certificate's view
+            CMP = ("PartialOrd::lt", "PartialOrd::le", "PartialOrd::gt", "PartialOrd::ge", "Ord::cmp", "Ord::max", "Ord::min", "PartialOrd::partial_cmp",
+                   "Iterator::max", "Iterator::max_by", "Iterator::max_by_key", "Iterator::min_by_key", "Iterator::min_by", "Iterator::fold", "Iterator::reduce", "cmp::max", "cmp::max_by_key")
+            cmps = [c for g in common.family(ctx, f, ("closure",)) + [f] for c in ctx.T(g).calls() if (c["q"] or "").endswith(CMP)]
+            if not cmps:
+                st, txt = "wrong", "no order comparison of certificate views anywhere in TimeoutQC::high_qc - the result is chosen by its position in the map (%s)" % txt
+        if st == "unknown":
             ctx.note("C02.3 high_qc: shape not recognised (%s) - not decided" % txt)
         ctx.ob(R, "high_qc term", st != "wrong" and (st == "unknown" or from_keys), txt if st == "ok" else ("undecided shape (not reported): " + txt if st == "unknown" else "high_qc is not the certificate with the highest view: " + txt), f.loc())
         return
